@@ -1,5 +1,7 @@
 import Driver.Loop
 import Midgard.Model.Config
+import Midgard.Model.ConfigTyped
+import Midgard.Generated.ConfigTables
 import Midgard.Proofs.ConfigDoc
 
 /-!
@@ -38,6 +40,11 @@ Text fields are hex (`.` = empty), `-` is None.
  pure
   a:kind:value                                         entry.<kind>   kind = list|tuple|dict|bool|int
   x:value:vars:callvars:default|-                      entry.replace(default, **callvars) with cfg vars
+  A:list|tuple:pattern:maxsplit:value                  entry.as_list / as_tuple (split_re=pattern, maxsplit=…)
+  A:dict:itempattern:kvpattern:maxsplit:value          entry.as_dict(item_split_re, key_value_split_re, maxsplit)
+  A:float:value   A:date:value   A:datetime:value      entry.float (num/den | inf | -inf | nan), .date, .datetime (µs since 2000-01-01)
+  A:path:home:value                                    str(entry.path) with $HOME = home
+  A:enum:name:value                                    entry.as_enum(name).name
 -/
 namespace Driver.C19
 open Midgard.Proto Midgard.Config
@@ -236,6 +243,48 @@ def step (w : World) (op : String) : Option (World × String) :=
     | "bool" => pure (w, match asBool v with | .ok b => showBool b | .error e => s!"err:{showErr e}")
     | "int" => pure (w, match asInt v with | .ok n => toString n | .error e => s!"err:{showErr e}")
     | _ => none
+  | ["A", kind, pat, ms, v] => do
+    let pat ← unhx? pat; let ms ← ms.toNat?; let v ← unhx? v
+    if kind != "list" && kind != "tuple" then none else
+    match parseClass? pat with
+    | none => pure (w, "unsupported-pattern")
+    | some cc => pure (w, showList hx (asListRe cc ms v))
+  | ["A", "dict", ipat, kpat, ms, v] => do
+    let ipat ← unhx? ipat; let kpat ← unhx? kpat; let ms ← ms.toNat?; let v ← unhx? v
+    match parseClass? ipat, parseClass? kpat with
+    | some ic, some kc =>
+      match asDictRe ic kc ms v with
+      | .ok d => pure (w, showList (fun (k, x) => s!"{hx k}={hx x}") d)
+      | .error e => pure (w, s!"err:{showErr e}")
+    | _, _ => pure (w, "unsupported-pattern")
+  | ["A", "float", v] => do
+    let v ← unhx? v
+    match asFloat v with
+    | .ok (.finite q) => pure (w, s!"{q.num}/{q.den}")
+    | .ok (.inf neg) => pure (w, if neg then "-inf" else "inf")
+    | .ok .nan => pure (w, "nan")
+    | .error e => pure (w, s!"err:{showErr e}")
+  | ["A", "date", v] => do
+    let v ← unhx? v
+    match asDate v with
+    | .ok dt => pure (w, toString dt)
+    | .error e => pure (w, s!"err:{showErr e}")
+  | ["A", "datetime", v] => do
+    let v ← unhx? v
+    match asDatetime v with
+    | .ok dt => pure (w, toString dt)
+    | .error e => pure (w, s!"err:{showErr e}")
+  | ["A", "path", home, v] => do
+    let home ← unhx? home; let v ← unhx? v
+    match asPath home v with
+    | some p => pure (w, hx p)
+    | none => pure (w, "unsupported-pattern")
+  | ["A", "enum", name, v] => do
+    let name ← unhx? name; let v ← unhx? v
+    match asEnum Midgard.Generated.ConfigTables.enumTable name v with
+    | .ok m => pure (w, hx m)
+    | .error .unknownEnum => pure (w, "err:unknownEnum")
+    | .error .value => pure (w, "err:value")
   | ["x", v, vars, callvars, dflt] => do
     let v ← unhx? v; let vars ← kvsStr? vars; let callvars ← kvsStr? callvars; let dflt ← optHex? dflt
     match entryReplace vars callvars dflt v with
